@@ -8,7 +8,9 @@
 (*   env      releases the batches of each input file (data becomes readable)   *)
 (*   reader r (R slots = the `sema` of OpenFilesToChan) claims the next file,   *)
 (*            sends its batches on batchCh (cap BCap); after wg.Wait the        *)
-(*            spawner closes batchCh                                            *)
+(*            spawner closes batchCh.  A name that cannot be opened (a file     *)
+(*            written <<>>: no content at all) leaves through the open-error    *)
+(*            path, which gives the slot back like every other way out          *)
 (*   worker w receives a batch, bumps the atomic matchedLines for every match,  *)
 (*            sends the non-empty match batch on readCh (cap RCap; 5 in the     *)
 (*            code); after wg.Wait a closer goroutine closes readCh             *)
@@ -28,7 +30,7 @@ CONSTANTS
   BCap, RCap, \* capacities of batchCh and readCh
   MaxTicks,   \* bound on the number of 100 ms ticks that fire
   EnvSteps,   \* TRUE: input becomes readable batch by batch (env process)
-  Fault       \* "none" | "nomutex" | "buffered" | "nofinal" | "earlyclose" | "latecount"
+  Fault       \* "none" | "nomutex" | "buffered" | "nofinal" | "earlyclose" | "latecount" | "slotleak"
 
 NF == Len(Files)
 AllBatches == {<<f, i>> : f \in 1..NF, i \in 1..3} \* ids; filtered below
@@ -37,12 +39,15 @@ Lines(b) == Files[b[1]][b[2]]
 Matches(b) == SelectSeq(Lines(b), LAMBDA k : k # 0)
 Keys == UNION {ToSet(Matches(b)) : b \in BatchIds}
 CountIn(s, k) == Cardinality({i \in 1..Len(s) : s[i] = k})
+\* names that cannot be opened (missing, no permission): os.Open fails, nothing is ever read from them
+Missing == {f \in 1..NF : Files[f] = <<>>}
 Total == [k \in Keys |-> FoldSet(LAMBDA b, acc : acc + CountIn(Lines(b), k), 0, BatchIds)]
 
 VARIABLES
   rel,        \* rel[f] = batches of file f made readable by the environment
   nextFile,   \* next file the spawner hands to a free reader slot
-  rdr,        \* rdr[r] = [f |-> file being read (0 = idle), i |-> next batch]
+  rdr,        \* rdr[r] = [f |-> file being read (0 = idle), i |-> next batch]; an idle slot has i = 0 - a slot
+              \* whose goroutine is gone (wg.Done) but whose token is still in `sema` has i = -1 (Fault "slotleak")
   batchCh, bClosed,
   wk,         \* wk[w] = [pc |-> "recv" | "send" | "done" (| "count"), out |-> match batch to send]
   readCh, rClosed,
@@ -88,7 +93,7 @@ EnvRel(f) ==
 prodUnch == <<matched, mpc, mb, tpc, ticks, mutex, doneBuf, cnt, snap, snapM, fresh>>
 
 Claim(r) ==       \* sema <- struct{}{}; wg.Add(1); go func(filename)
-  /\ rdr[r].f = 0 /\ nextFile <= NF
+  /\ rdr[r].f = 0 /\ rdr[r].i = 0 /\ nextFile <= NF
   /\ rdr' = [rdr EXCEPT ![r] = [f |-> nextFile, i |-> 1]]
   /\ nextFile' = nextFile + 1
   /\ UNCHANGED <<rel, batchCh, bClosed, wk, readCh, rClosed, panic>> /\ UNCHANGED prodUnch
@@ -102,8 +107,16 @@ RSend(r) ==       \* s.c <- InputBatch{...}
   /\ rdr' = [rdr EXCEPT ![r].i = i + 1]
   /\ UNCHANGED <<rel, nextFile, bClosed, wk, readCh, rClosed>> /\ UNCHANGED prodUnch
 
+\* openFileToReader fails: the error is logged and counted and the goroutine returns - through the
+\* same deferred `<-sema; wg.Done()` as every other way out.  Seeded fault "slotleak": the open-error
+\* path does wg.Done() but keeps the semaphore token
+ROpenFail(r) ==
+  /\ rdr[r].f \in Missing
+  /\ rdr' = [rdr EXCEPT ![r] = [f |-> 0, i |-> IF Fault = "slotleak" THEN 0 - 1 ELSE 0]]
+  /\ UNCHANGED <<rel, nextFile, batchCh, bClosed, wk, readCh, rClosed, panic>> /\ UNCHANGED prodUnch
+
 RDone(r) ==       \* <-sema; wg.Done()
-  /\ rdr[r].f # 0 /\ rdr[r].i > Len(Files[rdr[r].f])
+  /\ rdr[r].f # 0 /\ rdr[r].f \notin Missing /\ rdr[r].i > Len(Files[rdr[r].f])
   /\ rdr' = [rdr EXCEPT ![r] = [f |-> 0, i |-> 0]]
   /\ UNCHANGED <<rel, nextFile, batchCh, bClosed, wk, readCh, rClosed, panic>> /\ UNCHANGED prodUnch
 
@@ -243,7 +256,7 @@ TUnlock ==        \* writeOutput() returns; outputMutex.Unlock()
 
 \* -------------------------------------------------------------------- spec
 Env     == \E f \in 1..NF : EnvRel(f)
-Reader(r) == Claim(r) \/ RSend(r) \/ RDone(r)
+Reader(r) == Claim(r) \/ RSend(r) \/ RDone(r) \/ ROpenFail(r)
 Worker(w) == WRecv(w) \/ WExit(w) \/ WSend(w) \/ WCount(w)
 Main    == MRecv \/ MClosed \/ MLock \/ MSEnter \/ MSExit \/ MUnlock \/ DoneRendezvous
            \/ DoneBufferedSend \/ MFinalEnter \/ MFinalExit \/ MRet
@@ -296,6 +309,12 @@ FinalAfterAll ==
      /\ cnt = Total /\ tpc = "exit" /\ rClosed /\ readCh = <<>>
      /\ \A w \in 1..W : wk[w].pc = "done"
 FinalComplete == mpc = "ret" => snap = Total /\ snapM = Obs!SumF(Total) /\ fresh
+
+\* reader slots: a slot is taken exactly while its goroutine lives, so the spawner is never kept from
+\* starting the next name once a reader has left - whichever way it left (open error included)
+SlotsOK ==
+  /\ \A r \in 1..R : rdr[r].f = 0 => rdr[r].i = 0
+  /\ (nextFile <= NF /\ \A r \in 1..R : rdr[r].f = 0) => \E r \in 1..R : ENABLED Claim(r)
 
 \* nothing is left behind: the ticker goroutine is gone when the loop returns
 NoLeak == mpc = "ret" => tpc = "exit" /\ mutex = "free"
